@@ -25,15 +25,15 @@ pub fn run_case(c: &Value) -> CaseResult {
     let r = panic::catch_unwind(|| match kind {
         k if k.starts_with("ff_") => ff::run(c),
         "table_seq" => table::run(c),
-        "bdd_prog" => bdd::run(c),
+        "bdd_prog" | "bdd_newvar" => bdd::run(c),
         "dnnf_cond" => dnnf::run(c),
-        "cnf_eval" | "pm_ops" => cnf::run(c),
-        "order_perm" => order::run(c),
+        "cnf_eval" | "pm_ops" | "cnf_condition" | "cnf_wmc" => cnf::run(c),
+        "order_perm" | "order_heur" => order::run(c),
         "lru_seq" => lru::run(c),
         "poly_ops" => poly::run(c),
         "dtree_cnf" => dtree::run(c),
-        "lat_eu" | "lat_real" | "lat_bool" => lattice::run(c),
-        "compile_expr" | "compile_cnf" => compile::run(c),
+        "lat_eu" | "lat_real" | "lat_bool" | "lat_rational" => lattice::run(c),
+        "compile_expr" | "compile_cnf" | "compile_sdd" => compile::run(c),
         _ => Err(format!("unknown case kind {kind}")),
     });
     match r {
